@@ -27,6 +27,7 @@ Diff(exp, eo, ev) ==
        \cup (IF exp.since # ev.st.obs_unanswered THEN {"since"} ELSE {})
        \cup { "out." \o f : f \in { g \in OutFields : eo[g] # ev.out[g] } }
        \cup (IF ~ev.out.timer_ok THEN {"out.timer_ok"} ELSE {})
+       \cup (IF ev.out.meas > eo.meas THEN {"out.meas_over"} ELSE {})
 
 TraceInit == /\ l = 1 /\ skip = FALSE /\ nb = 0 /\ fin = FALSE
              /\ st = InitState(<<>>)
